@@ -70,15 +70,14 @@ def splitOnSlash : Bytes → List Bytes
     | [] => [[]]
     | p :: ps => if c = 47 then [] :: p :: ps else (c :: p) :: ps
 
-/-- `none` = outside the domain (no leading `/`, or an empty reference token) -/
+/-- `none` = outside the domain (no leading `/`).  An empty reference token is the member
+name `""` (RFC 6901). -/
 def parsePointer (p : Bytes) : Option (List Bytes) :=
   match p with
   | [] => some []
   | c :: cs =>
     if c ≠ 47 then none
-    else
-      let toks := splitOnSlash cs
-      if toks.any (·.isEmpty) then none else some (toks.map decodeTok)
+    else some ((splitOnSlash cs).map decodeTok)
 
 /-! ### array indices -/
 
